@@ -7,5 +7,5 @@ Extraction Language OCaml.
 Extraction "model.ml"
   N.add N.mul N.div_eucl
   subj_new subj_add_catid_ignore for_session acl_add_all
-  status_code im_handle spec_response holds wf_node wf_fabrics shape_stable
+  status_code im_handle write_chunked spec_response spec_write_chunked holds holds_chunked wf_node wf_fabrics shape_stable
   permitted served request_spec concrete_decision.
